@@ -41,6 +41,15 @@ package watgen
 //     `nop`, `(global $g f64 (f64.const ...))`, `select (result t)`, `memory.init`,
 //     `(start $f)` naming any function but the first.
 
+//   - Added 2026-09-22 (second freeze, against /repo at 45cb362, findLabelIndex unchanged since the
+//     pinned commit): family ctrl-shadow. Nested block/loop/if constructs that REUSE one label
+//     identifier ($L0 inside $L0; every set partition of the levels with at least one shared name),
+//     branches by name to every depth from the innermost position and a trailing br_if after each
+//     inner construct has closed. The renderer writes `$label` only where innermost-wins resolution
+//     denotes the intended construct and the relative index elsewhere. The unchanged parser and
+//     assembler accepted every ctrl-shadow item (depth <= 3) in all 16 cover styles with the
+//     reference result; a rejection or another label index is a violation from now on.
+//
 // FrozenStyles returns the frozen style alphabet: all 128 combinations.
 func FrozenStyles() []Style { return AllStyles() }
 
